@@ -290,6 +290,15 @@ let run_engine (id, lines) =
                     if kind = "plan" then g_exec_move g s mv
                     else begin
                       Printf.printf "%s %d move executable %b\n" id !step (g_move_executable g s mv);
+                      (* every built-in estimate on its own: the violated ones with their SkipVehicle hint, sorted by name *)
+                      let nm = function
+                        | CNAttributes -> "attributes" | CNCapacity r -> "capacity_" ^ string_of_int (n2i r)
+                        | CNDistance -> "distance" | CNEnd -> "end" | CNLatestStart -> "latest_start"
+                        | CNMaxStops -> "max_stops" | CNWaitStop -> "wait_stop" | CNWaitVehicle -> "wait_vehicle" in
+                      let items = List.filter_map (fun ((c, v), h) ->
+                        if v then Some (nm c ^ (if h then ":skip" else ":noskip")) else None) (estimates_with_hints i s mv) in
+                      Printf.printf "%s %d est%s\n" id !step
+                        (String.concat "" (List.map (fun x -> " " ^ x) (List.sort compare items)));
                       g_exec_checked g s mv
                     end in
                   !sols.(!cur) <- s';
